@@ -287,12 +287,15 @@ class Dispatcher:
         # note: The initial poll already happend before the server is active
         for modulename, pname in modules:
             moduleobj = self.secnode.modules.get(modulename, None)
-            if pname:
-                conn.send_reply(make_update(modulename, moduleobj.parameters[pname]))
-                continue
-            for pobj in moduleobj.accessibles.values():
-                if isinstance(pobj, Parameter) and pobj.export:
-                    conn.send_reply(make_update(modulename, pobj))
+            # the update lock of the module makes sure that a concurrent update is delivered
+            # either before or after the snapshot, but not after a snapshot with an older value
+            with moduleobj.updateLock:
+                if pname:
+                    conn.send_reply(make_update(modulename, moduleobj.parameters[pname]))
+                    continue
+                for pobj in moduleobj.accessibles.values():
+                    if isinstance(pobj, Parameter) and pobj.export:
+                        conn.send_reply(make_update(modulename, pobj))
         return (ENABLEEVENTSREPLY, specifier, None) if specifier else (ENABLEEVENTSREPLY, None, None)
 
     def handle_deactivate(self, conn, specifier, data):
